@@ -347,13 +347,23 @@ let check (b : block) : verdict list =
             | None -> false in
           let primary = edit_spec st adds rmvs in
           let alt = if is_inverse && List.length !hist >= 2 then Some (List.nth !hist 1) else None in
-          let cands = (match primary with Some p -> [p] | None -> []) @ (match alt with Some a -> [a] | None -> []) in
+          (* a removal may also give the feature count back: the same clause set over the feature count
+             of an earlier state of this history (when no remaining clause mentions a larger variable) *)
+          let shrunk = match primary with
+            | Some ({ cls = Some cls'; _ } as p) when rmvs <> [] ->
+              List.filter_map (fun (h : ostate) ->
+                  if h.n < p.n && h.n >= maxvar cls' then Some { p with n = h.n; models = models_of_cls cls' h.n } else None)
+                (List.sort_uniq compare !hist)
+            | _ -> [] in
+          let cands = (match primary with Some p -> [p] | None -> []) @ (match alt with Some a -> [a] | None -> []) @ shrunk in
           if !judged_ok && cands <> [] then begin
             bump "C11_steps_judged";
             match s.panic with
             | Some msg ->
               judged_ok := false;
-              add (Viol ("edit:panic", Printf.sprintf "%s panicked: %s" ctx msg))
+              let after_unit = mode = "cnf" && List.mem "UnitClause" !strategies in
+              add (Viol ((if after_unit then "edit:panic-after-unit-edit" else "edit:panic"),
+                         Printf.sprintf "%s panicked: %s" ctx msg))
             | None ->
               let verdicts = List.map (fun c -> (c, judge s c)) cands in
               (match List.find_opt (fun (_, f) -> f = []) verdicts with
